@@ -369,7 +369,7 @@ func (state *RuntimeState) webauthnAuthFinish(w http.ResponseWriter, r *http.Req
 		eventNotifier.PublishWebLoginEvent(authData.Username)
 	}
 
-	_, err = state.updateAuthCookieAuthlevel(w, r,
+	_, err = state.updateAuthCookieAuthlevel(w, r, authData.Username,
 		authData.AuthType|verifiedAuth|AuthTypeU2F)
 	if err != nil {
 		logger.Printf("Auth Cookie NOT found ? %s", err)
